@@ -13,6 +13,8 @@ from typing import Dict, List, Optional, Set, Tuple
 from ..core import AnalysisError, Loc, Report, Source, norm
 from ..mediator_rules import check_run_loops
 from ..pyfront import Program, body_without_docstring, param_names, self_attr
+from ..guards import path_conditions
+from ..normalize import canon, flat
 from ..selftest import Edit
 
 ID = "C20"
@@ -353,6 +355,80 @@ def check_processes(prog: Program, rep: Report) -> None:
            "every live worker process must be terminated and joined after the run")
 
 
+def check_permits(prog: Program, rep: Report) -> None:
+    """
+    R20.5: every semaphore of the multi-process mediator has at least one permit for every admitted configuration.  The workers
+    acquire it around their candidate-time computation while the parent waits for their answers: with zero permits the first
+    iteration never completes.  Decided by interval evaluation of the constructor argument over the domain the constructor
+    admits (its validating guard clauses), through the attributes the constructor stores.
+    """
+    INF = float("inf")
+    mp = prog.class_named("MultiProcessMediator")
+    init = mp.methods.get("__init__")
+    if init is None:
+        raise AnalysisError("MultiProcessMediator.__init__ not found")
+    ci = canon(prog, mp, init, helpers=False)
+    body = body_without_docstring(ci)
+    env: Dict[str, Tuple[float, float]] = {}
+    conds = path_conditions(flat(body), flat(body)[-1]) or []
+    for p_ in param_names(ci):
+        lo, hi = -INF, INF
+        for c in conds:
+            parts = c.split()
+            if len(parts) == 3 and parts[1] in ("<", "<="):
+                try:
+                    if parts[2] == p_:
+                        lo = max(lo, float(parts[0]) + (1 if parts[1] == "<" else 0))
+                    elif parts[0] == p_:
+                        hi = min(hi, float(parts[2]) - (1 if parts[1] == "<" else 0))
+                except ValueError:
+                    pass
+        env[p_] = (lo, hi)
+
+    def iv(e: ast.AST, attrs: Dict[str, Tuple[float, float]]) -> Tuple[float, float]:
+        if isinstance(e, ast.Constant) and isinstance(e.value, (int, float)) and not isinstance(e.value, bool):
+            return (e.value, e.value)
+        if isinstance(e, ast.Name) and e.id in env:
+            return env[e.id]
+        if self_attr(e) in attrs:
+            return attrs[self_attr(e)]
+        if isinstance(e, ast.BinOp):
+            a, b = iv(e.left, attrs), iv(e.right, attrs)
+            if isinstance(e.op, ast.Add):
+                return (a[0] + b[0], a[1] + b[1])
+            if isinstance(e.op, ast.Sub):
+                return (a[0] - b[1], a[1] - b[0])
+            if isinstance(e.op, ast.Mult) and a[0] >= 0 and b[0] >= 0:
+                return (a[0] * b[0], a[1] * b[1])
+            if isinstance(e.op, ast.FloorDiv) and b[0] == b[1] and b[0] > 0 and a[0] >= 0:
+                return (a[0] // b[0], a[1] // b[0] if a[1] != INF else INF)
+        if isinstance(e, ast.Call) and isinstance(e.func, ast.Name) and e.func.id in ("max", "min") and e.args and not e.keywords:
+            vs = [iv(a, attrs) for a in e.args]
+            f = max if e.func.id == "max" else min
+            return (f(v[0] for v in vs), f(v[1] for v in vs))
+        if isinstance(e, ast.Call) and isinstance(e.func, ast.Name) and e.func.id == "int" and len(e.args) == 1:
+            return iv(e.args[0], attrs)
+        return (-INF, INF)
+    attrs: Dict[str, Tuple[float, float]] = {}
+    for st in ast.walk(ci):
+        if isinstance(st, ast.Assign) and len(st.targets) == 1 and self_attr(st.targets[0]):
+            attrs[self_attr(st.targets[0])] = iv(st.value, attrs)
+    n = 0
+    for name, fn in mp.methods.items():
+        cf = canon(prog, mp, fn, helpers=False)
+        for c in ast.walk(cf):
+            if isinstance(c, ast.Call) and norm(c.func).endswith("Semaphore"):
+                arg = c.args[0] if c.args else next((k.value for k in c.keywords if k.arg == "value"), None)
+                lo, hi = iv(arg, attrs) if arg is not None else (1, 1)
+                n += 1
+                rep.ob("R20.5-permits-positive", lo >= 1, Loc(MPM, c.lineno, f"MultiProcessMediator.{name}"), c,
+                       f"the semaphore that bounds the concurrent candidate-time computations gets between {lo} and {hi} permits over the "
+                       f"configurations the constructor admits ({', '.join(conds) or 'no restriction'}): with 0 permits every worker blocks "
+                       f"in acquire() while the mediator waits for their candidate times -- the run never commits its first event")
+    if n == 0:
+        rep.ob("R20.5-permits-positive", None, Loc(MPM, mp.node.lineno, "MultiProcessMediator"), "semaphore", "no semaphore found")
+
+
 def analyse(src: Source) -> List[Report]:
     rep = Report(ID, src)
     rep.explain(
@@ -378,11 +454,13 @@ def analyse(src: Source) -> List[Report]:
     check_parent_protocol(prog, rep)
     check_precompute_and_trash(prog, rep)
     check_processes(prog, rep)
+    check_permits(prog, rep)
     rep.expect_min("R20.1-order", 20)
     rep.expect_min("R20.2-legal-transition", 6)
     rep.expect_min("R20.2-wrapper-shape", 3)
     rep.expect_min("R20.3-precompute-only-without-arguments", 1)
     rep.expect_min("R20.4-process-registered", 1)
+    rep.expect_min("R20.5-permits-positive", 1)
     return [rep]
 
 
